@@ -88,12 +88,12 @@ type busWriter struct {
 }
 
 func (w *busWriter) Write(p []byte) (n int, err error) {
-	if uint32(len(p)) >= w.o+w.end {
+	if w.start+w.o+uint32(len(p)) > w.end {
 		err = io.ErrUnexpectedEOF
 		return
 	}
 
-	n = copy(w.r.Contents[w.o+w.start:w.end], p)
+	n = copy(w.r.Contents[w.start+w.o:w.end], p)
 	w.o += uint32(n)
 
 	return
@@ -108,6 +108,6 @@ func (r *ROM) BusWriter(busAddr uint32) io.Writer {
 	// Return a reader over the ROM contents up to the next bank to prevent accidental overflow:
 	bank := busAddr >> 16
 	pcStart := (bank << 15) | (page - 0x8000)
-	pcEnd := (bank << 15) | 0x7FFF
+	pcEnd := (bank << 15) + 0x8000
 	return &busWriter{r, busAddr, pcStart, pcEnd, 0}
 }
